@@ -8,6 +8,8 @@ from .. import common, tlc, programs
 from ..framework import Check, pmap, MachineryError
 
 
+# intrinsics that take two arguments get a second one (the reference is still recognised by its first argument x<r>)
+TWO_ARGS = {"shiftl", "shiftr", "shifta", "atan2", "mod"}
 POS_TEXT = {
     1: "r{r} = {n}(x{r})",
     2: "associate (q{r} => {n}(x{r}))\n{ind}end associate",
@@ -68,7 +70,10 @@ def render(b, common=False):
     def exec_part(i, ind):
         for r, ref in enumerate(refs, 1):
             if ref["s"] == i:
-                lines.append(ind + POS_TEXT[ref.get("p", 1)].format(r=r, n=ref["n"], ind=ind))
+                txt = POS_TEXT[ref.get("p", 1)].format(r=r, n=ref["n"], ind=ind)
+                if ref["n"] in TWO_ARGS:
+                    txt = txt.replace("%s(x%d)" % (ref["n"], r), "%s(x%d, 2)" % (ref["n"], r))
+                lines.append(ind + txt)
         for c in kids[i]:
             if sc[c - 1]["k"] == "blk":
                 lines.append(ind + "block")
@@ -112,7 +117,7 @@ def work(case):
         r["scope"] = fp.scope()
         kinds = {}
         import re
-        pat = re.compile(r"[A-Za-z]+\(x(\d+)\)\Z")
+        pat = re.compile(r"[A-Za-z][A-Za-z0-9_]*\(x(\d+)(?:, 2)?\)\Z")
         for n in walk(t):
             if type(n).__name__.endswith("_List"):
                 continue
